@@ -98,6 +98,14 @@ size_t G_written;              /* stream positions handed to the kernel / OpenSS
 int G_errno;                   /* errno */
 unsigned G_send_calls;         /* calls of send() (saturating) */
 unsigned G_sslw_calls;         /* calls of SSL_write() (saturating) */
+int G_rd_last;                  /* read side (see below): how the last recv / SSL_read ended */
+#define IORA_RD_DATA 1
+#define IORA_RD_EOF 2
+#define IORA_RD_AGAIN 3          /* EAGAIN / EWOULDBLOCK, or SSL_ERROR_WANT_READ / WANT_WRITE */
+#define IORA_RD_ERROR 4
+int G_ssl_last_err;             /* the class SSL_get_error gave for the last failed SSL call */
+/* the ghosts the write-side stubs assign (for assigns clauses) */
+#define IORA_WRITE_ENV_GHOSTS G_written, G_errno, G_send_calls, G_sslw_calls, G_ssl_last_ret, G_ssl_last_err, G_rd_last
 int G_ssl_fatal;                /* SEARCH build: the scripted failure was fatal */
 int G_ssl_last_ret;            /* return value of the last failed SSL_write/SSL_read (SSL_get_error must be asked about it) */
 typedef struct iora_ssl_st SSL;
@@ -170,6 +178,8 @@ static inline int iora_SSL_get_error(SSL *ssl, int ret)
   int e = nondet_int();
   IORA_ASSUME(e >= SSL_ERROR_SSL && e <= 12);                 /* ENV: ret <= 0 never yields SSL_ERROR_NONE */
 #endif
+  G_ssl_last_err = e;
+  if (G_rd_last == IORA_RD_ERROR) G_rd_last = (e == SSL_ERROR_WANT_READ || e == SSL_ERROR_WANT_WRITE) ? IORA_RD_AGAIN : (e == SSL_ERROR_ZERO_RETURN ? IORA_RD_EOF : IORA_RD_ERROR);
   return e;
 }
 static inline unsigned long iora_ERR_get_error(void) { unsigned long e; return e; }
@@ -179,6 +189,61 @@ static inline void iora_ERR_error_string_n(unsigned long e, char *buf, size_t le
  * narrowing, used for reporting only. Written out so that --conversion-check can stay on for the LENGTH casts. */
 static inline int iora_narrow_err(unsigned long e)
 { e &= 0xffffffffUL; return e <= 0x7fffffffUL ? (int)e : (int)((long)e - 0x100000000L); }
+#endif
+
+/* ---------------- read side of the environment ----------------
+ * Read direction of the same session: the kernel / OpenSSL deliver the peer's byte stream in order; G_received = positions taken out
+ * of the kernel so far, G_delivered = positions handed to the application's data callback so far.
+ *   iora_rbuf   the local `std::vector<uint8_t> buf` readAvail reads into: capacity + "bytes [0,len) hold stream positions [lo, lo+len)"
+ *   iora_wptr   buf.data(): pointer to the buffer (the stub fills it)
+ *   iora_recv / iora_SSL_read   PRECONDITION: the length stays inside the buffer. Result: -1 / any errno, 0 (EOF), or 1..len bytes,
+ *               which become the buffer's content; G_received advances. G_rd_last remembers how the last call ended.
+ *   the data-callback stub (unit pre.h) asserts that the view it gets starts at byte 0 of the buffer just filled, is not longer than
+ *   what was received, and starts at stream position G_delivered (in order, exactly once). */
+typedef struct { size_t cap; size_t lo, len; } iora_rbuf;
+#define iora_rbuf_DEFAULT ((iora_rbuf){0, 0, 0})
+typedef struct { iora_rbuf *b; } iora_wptr;
+static inline void iora_rbuf_resize(iora_rbuf *b, size_t n) { b->cap = n; b->len = 0; }
+static inline size_t iora_rbuf_size(const iora_rbuf *b) { return b->cap; }
+static inline iora_wptr iora_rbuf_data(iora_rbuf *b) { iora_wptr p = { b }; return p; }
+size_t G_received, G_delivered;
+unsigned G_recv_calls, G_sslr_calls, G_rd_pos_calls;     /* calls of recv / SSL_read; how many of them returned > 0 (saturating) */
+#ifndef IORA_NATIVE
+/* ssize_t recv(int fd, void *buf, size_t len, int flags) */
+static inline long iora_recv(int fd, iora_wptr buf, size_t len, int flags)
+{
+  (void)fd; (void)flags;
+  IORA_ASSERT(len >= 1 && len <= buf.b->cap, "R0 recv(): 1 <= length <= size of the buffer (narrowing of size() to int must not change it; a 0 length would read as EOF)");
+  if (G_recv_calls < 0x7fffffffu) G_recv_calls++;
+#ifdef IORA_SEARCH
+  int fatal; long r = iora_env_next(len, &fatal);
+  if (r < 0) G_errno = fatal ? 104 : EAGAIN;
+#else
+  long r = nondet_long();
+  IORA_ASSUME(r >= -1 && (r < 0 || (size_t)r <= len));
+  if (r < 0) G_errno = nondet_int();
+#endif
+  if (r > 0) { buf.b->lo = G_received; buf.b->len = (size_t)r; G_received += (size_t)r; G_rd_last = IORA_RD_DATA; if (G_rd_pos_calls < 0x7fffffffu) G_rd_pos_calls++; }
+  else if (r == 0) G_rd_last = IORA_RD_EOF;
+  else G_rd_last = (G_errno == EAGAIN || G_errno == EWOULDBLOCK) ? IORA_RD_AGAIN : IORA_RD_ERROR;
+  return r;
+}
+/* int SSL_read(SSL *ssl, void *buf, int num): > 0 bytes, <= 0 ask SSL_get_error */
+static inline int iora_SSL_read(SSL *ssl, iora_wptr buf, int num)
+{
+  IORA_ASSERT(ssl != 0, "SSL_read(): session has an SSL object");
+  IORA_ASSERT(num >= 1 && (size_t)num <= buf.b->cap, "R0 SSL_read(): 1 <= num <= size of the buffer");
+  if (G_sslr_calls < 0x7fffffffu) G_sslr_calls++;
+#ifdef IORA_SEARCH
+  int fatal; int r = (int)iora_env_next((size_t)num, &fatal); G_ssl_fatal = fatal;
+#else
+  int r = nondet_int();
+  IORA_ASSUME(r >= -1 && r <= num);
+#endif
+  if (r > 0) { buf.b->lo = G_received; buf.b->len = (size_t)r; G_received += (size_t)r; G_rd_last = IORA_RD_DATA; if (G_rd_pos_calls < 0x7fffffffu) G_rd_pos_calls++; }
+  else { G_ssl_last_ret = r; G_rd_last = IORA_RD_ERROR; }      /* refined by SSL_get_error */
+  return r;
+}
 #endif
 
 #endif
